@@ -325,6 +325,16 @@ def check(spec, ctx):
     a_pk = ctx.call(spec, "compute_affinity(unpickled geometries)", compute_affinity, pickle.loads(pickle.dumps(g1)), pickle.loads(pickle.dumps(g2)), time_buffer=tb, freq_buffer=fb)
     if a_pk != a12:
         ctx.fail(f"compute_affinity of the unpickled geometries = {a_pk}, of the originals = {a12}", spec, a_pk, a12, kind="pickle")
+    # two calls running in two threads: this one is suspended at lines inside the library while the other thread compares the same
+    # geometries the other way round under larger buffers
+    ctx.interleave(
+        spec,
+        "compute_affinity",
+        lambda: compute_affinity(g1, g2, time_buffer=tb, freq_buffer=fb),
+        lambda: compute_affinity(g2, g1, time_buffer=tb + 0.25, freq_buffer=fb + 50.0),
+        every=5,
+        max_pauses=32,
+    )
     # buffers passed positionally (documented order: geometry1, geometry2, time_buffer, freq_buffer)
     a_pos = ctx.call(spec, "compute_affinity(g1, g2, tb, fb) positional", compute_affinity, g1, g2, tb, fb)
     if a_pos != a12:
